@@ -27,6 +27,13 @@ def main():
         ctx.theorems = audit.get("theorems", [])
         ctx.extra["axioms"] = audit.get("axioms", {})
         ctx.ob(audit["ok"], max(audit["obligations"], 1))
+        if a.tier == "thorough" and audit["ok"]:
+            ok, msg = common.lean_recheck(prop)
+            ctx.ob(ok)
+            ctx.extra["leanchecker"] = "accepted TeaalVerif.Props.%s" % prop if ok else msg
+            if not ok:
+                audit["ok"] = False
+                audit["problems"].append("leanchecker rejects TeaalVerif.Props.%s: %s" % (prop, msg))
         ctx.proof_ok = audit["ok"]
         ctx.proof_problems = audit["problems"]
         mod.run(ctx)
